@@ -93,7 +93,7 @@ theorem plm_ctrl (cfg : Config) (s : FState α) (cmd : Cmd α) (ep fr fz : Optio
         · simpa [hes] using k2
   · have hm' : T.isMoveOf fz xy = false := by simpa using hm
     simp only [hm', Bool.not_false, if_true, Bool.false_and, Bool.false_eq_true, if_false]
-    rw [processNonMove_frame s1 cmd dE hs1]
+    rw [nonMoveBody_fst, processNonMove_frame s1 cmd dE hs1]
     exact ⟨f1, f2, f3, f4, f5⟩
 
 end ERP
